@@ -74,6 +74,16 @@ def gen_cases(tier, seed):
         if any(f == 0 for f in flow.values()):
             continue
         cases.append({"kind": "flow", "spec": gen.spec(nodes, edges, eattr={e: {"flow": f} for e, f in flow.items()})})
+        if rng.random() < 0.5:
+            # inexact flow: an interval [lb, ub] around the planted flow on some edges; the planted paths decompose a feasible flow
+            ea = {}
+            for e, f in flow.items():
+                r = rng.random()
+                # (lower bounds stay >= 1: with lb = 0 an edge need not carry flow at all, and whether its one-edge path is then "safe" is not
+                #  settled by the statement - the library reports it)
+                lo, hi = (f, f) if r < 0.4 else ((max(1, f - rng.randint(0, 2)), f + rng.randint(0, 2)) if r < 0.8 else (max(1, f - rng.randint(1, 3)), f))
+                ea[e] = {"flow": f, "lb": lo, "ub": hi}
+            cases.append({"kind": "iflow", "spec": gen.spec(nodes, edges, eattr=ea), "paths": [list(p) for p, _ in planted]})
     for i in range(n // 2):
         rng = gen.rng_for("C06p", seed, i)
         nodes, edges = gen.cyc_any(rng, 12)
@@ -243,6 +253,41 @@ def run_flow(case, viol, obs):
     return hashlib.sha1(desc.encode()).hexdigest()[:14], nontriv
 
 
+def run_iflow(case, viol, obs):
+    """inexact flows: a reported path must be a subpath of some path of EVERY decomposition of EVERY feasible flow (lb <= f <= ub)"""
+    G = gen.build(case["spec"])
+    lb = {(u, v): d["lb"] for u, v, d in G.edges(data=True)}; ub = {(u, v): d["ub"] for u, v, d in G.edges(data=True)}
+    r = M.safe_call(sfd.compute_inexact_flow_decomp_safe_paths, G, "lb", "ub", [list(p) for p in case["paths"]])
+    desc = f"intervals {sorted((str(e), lb[e], ub[e]) for e in lb)} decomposition paths {case['paths']}"
+    if r[0] != "ok":
+        viol.append({"sig": f"C06/inexact-flow-safe-raise/{r[1]}", "msg": f"{r[2]} {desc}"}); return None, False
+    P = ref.st_paths(G)
+    nontriv = False
+    for sp in r[1]:
+        obs["c06.inexact_flow_safe_paths_judged"] += 1
+        sp_ = [tuple(e) for e in sp]
+        if len(sp_) >= 2:
+            nontriv = True
+        if any(not G.has_edge(*e) for e in sp_) or any(a[1] != b[0] for a, b in zip(sp_, sp_[1:])):
+            viol.append({"sig": "C06/flow-safe-path-malformed/inexact", "msg": f"{sp_}; {desc}"}); continue
+        s = z3.Solver(); s.set("timeout", 30000)
+        cols = [p for p in P if not ref.contains_subseq(ref.path_edges(p), sp_)]
+        W = [z3.Real(f"w{i}") for i in range(len(cols))]
+        for w in W:
+            s.add(w >= 0)
+        for e in lb:
+            tot = z3.Sum([W[i] for i, p in enumerate(cols) if e in ref.path_edges(p)] + [z3.RealVal(0)])
+            s.add(tot >= ref._q(lb[e]), tot <= ref._q(ub[e]))
+        res = s.check()
+        if res == z3.sat:
+            m = s.model()
+            wit = [(cols[i], str(m.eval(W[i], model_completion=True))) for i in range(len(cols)) if str(m.eval(W[i], model_completion=True)) != "0"]
+            viol.append({"sig": "C06/flow-safe-path-not-safe/inexact", "msg": f"path {sp_} reported flow-safe but this decomposition of a feasible flow avoids it: {wit}; {desc}"})
+        elif res == z3.unknown:
+            obs["c06.flow_ref_unknown"] += 1
+    return hashlib.sha1(desc.encode()).hexdigest()[:14], nontriv
+
+
 def run_prune(case, viol, obs):
     G = gen.build(case["spec"])
     cls = getattr(fp, case["cls"])
@@ -336,7 +381,7 @@ def run_dagmodel(case, viol, obs):
 
 def run_case(case):
     viol = []; obs = collections.Counter()
-    out = {"cyc": run_cyc, "dag": run_dag, "flow": run_flow, "prune": run_prune, "dagmodel": run_dagmodel}[case["kind"]](case, viol, obs)
+    out = {"cyc": run_cyc, "dag": run_dag, "flow": run_flow, "iflow": run_iflow, "prune": run_prune, "dagmodel": run_dagmodel}[case["kind"]](case, viol, obs)
     key, nontriv = out if out else (None, False)
     seen = set(); outv = []
     for v in viol:
